@@ -404,6 +404,34 @@ pub fn o_tree_suffix(prop: &str, ex: &Exec, with_remount: bool) -> V {
             Some(Err(e)) => push(&mut v, format!("{prop}/remount-listing/failed"), e.clone()),
             None => {}
         }
+        // the parent links are part of the tree: a directory reached through the `..` entry of one of its
+        // subdirectories is the directory that lists that subdirectory (same session and after the remount)
+        for (what, views, tree) in [("session", &sx.dotdot_session, &sx.lib_tree), ("remount", &sx.dotdot_remount, &sx.remount_tree)] {
+            let (Some(views), Some(Ok(tree))) = (views, tree) else { continue };
+            for (p, r) in views {
+                let parent = match p.rfind('/') {
+                    Some(0) | None => "/".to_string(),
+                    Some(i) => p[..i].to_string(),
+                };
+                let mut want: Vec<String> = tree
+                    .keys()
+                    .filter(|k| {
+                        let kp = match k.rfind('/') {
+                            Some(0) | None => "/",
+                            Some(i) => &k[..i],
+                        };
+                        kp == parent
+                    })
+                    .map(|k| k[k.rfind('/').map_or(0, |i| i + 1)..].to_string())
+                    .collect();
+                want.sort();
+                match r {
+                    Ok(names) if *names == want => {}
+                    Ok(names) => push(&mut v, format!("{prop}/{what}-listing/parent-link-leads-elsewhere"), format!("{p}/.. lists {names:?}; the directory that holds {p} lists {want:?}")),
+                    Err(e) => push(&mut v, format!("{prop}/{what}-listing/parent-link-unusable"), e.clone()),
+                }
+            }
+        }
     }
     v
 }
